@@ -1,5 +1,6 @@
 import PEval.Driver.Util
 import PEval.Model.FrameChange
+import PEval.Model.FrameEval
 /-! Driver handler for C07: render a scene in the map frame, score tables in both renderings. -/
 open Lean
 
@@ -77,6 +78,77 @@ def filterJson (e : Pose) (gts : List Obj) (j : Json) : Except String (List (Str
     pure [("gt_kept_ego", keptJson (keptEgo pm pc os)),
           ("gt_kept_map", keptJson (keptMap e pm pc (os.map (Tagged.toMap e))))]
 
+/-! the whole frame (optional part of a request): `"eval": {"mgr": params, "crit": params, "est_attrs": [attr…],
+"gt_attrs": [attr…], "policy", "targets", "radii2", "pf_targets", "pf_thr2", "crit_targets", "map_targets",
+"maps": [{"mode", "thrs"}…]}` — distances travel squared (`dist := id`), so do the thresholds of the distance modes.
+Response: the model's `evalFrame` of the ego rendering and of the map rendering of the same frame. -/
+
+def getAttr (j : Json) : Except String Attr := do
+  pure { tag := ← getTag j, mlabel := ← getStr j "mlabel", alabel := ← getNat j "alabel",
+         uid := ← getNat j "uid", stamp := ← getNat j "stamp" }
+
+def getPolicy (s : String) : Except String PEval.Matching.Policy :=
+  match s with
+  | "DEFAULT" => pure .default
+  | "ALLOW_UNKNOWN" => pure .allowUnknown
+  | "ALLOW_ANY" => pure .allowAny
+  | _ => throw s!"bad policy {s}"
+
+def getApMode (s : String) : Except String PEval.AP.Mode :=
+  match s with
+  | "center" => pure .centerDistance
+  | "plane" => pure .planeDistance
+  | "iou2d" => pure .iou2d
+  | "iou3d" => pure .iou3d
+  | _ => throw s!"bad mode {s}"
+
+def apJson (a : PEval.AP.ApOut) : Json := jOptRat a.ap
+
+def mapJson (m : PEval.AP.MapOut) : Json :=
+  Json.mkObj [("map", jOptRat m.map), ("maph", jOptRat m.maph), ("aps", jList apJson m.aps), ("aphs", jList apJson m.aphs)]
+
+def pfResJson (r : PEval.PassFail.Res) : Json := Json.arr #[jNat r.est, jOptNat (r.gt.map (·.id))]
+
+def outJson (r : Except Err FrameOut) : Json :=
+  match r with
+  | .error k => Json.mkObj [("err", Json.str k)]
+  | .ok o =>
+    Json.mkObj [("ok", Json.mkObj [
+      ("kept_est", jList jNat o.keptEst), ("kept_gt", jList jNat o.keptGt),
+      ("matched", jList (fun (m : PEval.Matching.Res) =>
+        Json.arr #[jNat (o.keptEst.getD m.1 0), jOptNat (m.2.map (fun k => o.keptGt.getD k 0))]) o.out.matched),
+      ("pairs", jList pfResJson o.out.pf.results), ("gt_kept", jList (fun (g : PEval.PassFail.GT) => jNat g.id) o.out.pf.gts),
+      ("tp", jList pfResJson o.out.pf.tp), ("fp", jList (fun (x : PEval.PassFail.Res) => jNat x.est) o.out.pf.fp),
+      ("tn", jList (fun (g : PEval.PassFail.GT) => jNat g.id) o.out.pf.tn),
+      ("fn", jList (fun (g : PEval.PassFail.GT) => jNat g.id) o.out.pf.fn),
+      ("maps", jList mapJson o.out.maps)])]
+
+def optRatList (j : Json) (k : String) : Except String (Option (List Rat)) := optList j k asRat
+
+def evalJson (e : Pose) (ests gts : List Obj) (j : Json) : Except String (List (String × Json)) :=
+  match optField j "eval" with
+  | none => pure []
+  | some v => do
+    let mgr ← getParams (← v.getObjVal? "mgr")
+    let crit ← getParams (← v.getObjVal? "crit")
+    let ea ← (← getArr v "est_attrs").toList.mapM getAttr
+    let ga ← (← getArr v "gt_attrs").toList.mapM getAttr
+    let maps ← (← getArr v "maps").toList.mapM (fun m => do
+      pure (PEval.Pipeline.MapCfg.mk (← getApMode (← getStr m "mode")) (← getRatList m "thrs")))
+    let C : EvalCfg :=
+      { mgr := mgr, crit := crit
+        matcher := { policy := ← getPolicy (← getStr v "policy"), mode := .centerDistance,
+                     targets := some (← getStrList v "targets"), thresholds := ← optRatList v "radii2",
+                     fpValidation := false }
+        dist := id
+        pfTargets := ← getNatList v "pf_targets", pfThrs := ← optRatList v "pf_thr2"
+        critTargets := ← getNatList v "crit_targets", mapTargets := ← getNatList v "map_targets"
+        maps := maps, trackMode := .centerDistance, trackTargets := [] }
+    let f : SFrame :=
+      { frameId := .baseLink, pose := e
+        ests := (ea.zip ests).map (fun p => ⟨p.1, p.2⟩), gts := (ga.zip gts).map (fun p => ⟨p.1, p.2⟩) }
+    pure [("eval_ego", outJson (evalFrame C f)), ("eval_map", outJson (evalFrame C (f.toMap e)))]
+
 def handle : Json → Except String Json := fun j => do
   let pj ← j.getObjVal? "pose"
   let c ← getRat pj "c"; let s ← getRat pj "s"; let tau ← getRat pj "tau"
@@ -85,6 +157,7 @@ def handle : Json → Except String Json := fun j => do
   let ests ← (← getArr j "ests").toList.mapM getObj
   let gts ← (← getArr j "gts").toList.mapM getObj
   let flt ← filterJson e gts j
+  let ev ← evalJson e ests gts j
   -- score rows: the whole tables, or (large scenes) only the pairs `[i, j]` listed under "pairs"
   let rows ← match optField j "pairs" with
     | none =>
@@ -102,7 +175,7 @@ def handle : Json → Except String Json := fun j => do
         | _, _ => throw "pair index out of range")
       pure [("ego_rows", jList (fun (p : Obj × Obj) => rowJson (scoreRowEgo p.1 p.2)) sel),
             ("map_rows", jList (fun (p : Obj × Obj) => rowJson (scoreRowMap e (p.1.toMap e) (p.2.toMap e))) sel)]
-  pure (Json.mkObj (flt ++ rows ++ [
+  pure (Json.mkObj (flt ++ ev ++ rows ++ [
     ("ests", jList (objJson e) ests), ("gts", jList (objJson e) gts),
     ("same_gts_ego", jList (jList Json.bool) (sameTable gts)),
     ("same_gts_map", jList (jList Json.bool) (sameTable (gts.map (Obj.toMap e)))),
